@@ -136,6 +136,14 @@ def make_objective(name: str, box: np.ndarray, maximize: bool, shift: float = 0.
             u = (np.asarray(x, dtype=float) - lo) / rng
             return float(np.floor(3.0 * np.sum(np.abs(u - c)))) + shift
 
+    elif name == "nanhole":
+        # a deterministic objective that is undefined (NaN) on a slab of the box
+        def f(x):
+            u = (np.asarray(x, dtype=float) - lo) / rng
+            if 0.42 <= u[0] <= 0.62:
+                return float("nan")
+            return float(np.sum((u - c) ** 2)) + shift
+
     elif name == "const":
 
         def f(x):
@@ -270,6 +278,11 @@ class Recorder:
         v = self.f(x)
         self.log.record(self.level, x, v)
         return v
+
+    def __deepcopy__(self, memo):
+        # pyhms deep-copies candidate individuals (and with them their problem) for its records:
+        # the objective is shared, never copied
+        return self
 
 
 class CallableObjective:
